@@ -114,6 +114,10 @@ def walk_own(func_node):
     while stack:
         n = stack.pop()
         yield n
+        if isinstance(n, (ast.FunctionDef, ast.AsyncFunctionDef,
+                          ast.ClassDef)):
+            # a def statement directly in the body: its inside is not ours
+            continue
         for c in ast.iter_child_nodes(n):
             if isinstance(c, (ast.FunctionDef, ast.AsyncFunctionDef,
                               ast.ClassDef, ast.Lambda)):
